@@ -975,10 +975,18 @@ def run(ctx):
         ra, rb = rbytes(rng, 32), rbytes(rng, 32)
         roots = [b"", ra, rb, ra] if hi % 2 == 0 else [ra, b"", rb, b"", ra]
         sess = []
+        msgs = [rbytes(rng, 32) for _ in range(5)]
+        if hi % 2 == 1:
+            msgs[2] = msgs[0]       # the SAME message signed again later on the same object with fresh nonces
+            msgs[3] = msgs[1]
+        else:
+            msgs[3] = msgs[0]       # ... also under the same root (roots[3] == roots[0] is `ra` vs none: see roots)
         for si, root in enumerate(roots[: (4 if not ctx.thorough else 5)]):
             sess.append({"nonces": [(rng.randrange(1, N), rng.randrange(1, N)) for _ in range(n)],
-                         "sig_hash": xb(rbytes(rng, 32)), "root": xb(root),
+                         "sig_hash": xb(msgs[si]), "root": xb(root),
                          "touch": [xb(rng.choice([ra, rb, b""]))] if si % 2 == 1 else []})
+        sess.append({"nonces": [(rng.randrange(1, N), rng.randrange(1, N)) for _ in range(n)],
+                     "sig_hash": sess[-1]["sig_hash"], "root": sess[-1]["root"], "touch": []})
         hcases.append({"ds": [k[0] for k in ks], "sessions": sess})
         rec.count(f"history:n={n}")
     # the protocol as several parties run it: shared list objects (public keys, broadcast nonce pairs, partial sigs)
